@@ -12,3 +12,6 @@ Definition c05_fail (h : histcase) := let t := trace_of h in fold_trace_fail ord
 Definition c17_fail (h : histcase) := let t := trace_of h in fold_trace_fail (sub_step t) (mkSub 0 []) [] t 0.
 Definition c18_fail (h : histcase) := let t := trace_of h in
   (map (fun c => (c, conn_setup_ok h t c)) (conns t), fold_trace_fail (cs_step h t) (mkCs false false) [] t 0).
+Definition c10_fail (h : histcase) := let t := trace_of h in fold_trace_fail (rd_step h t) (mkRd true false [] 0 false) [] t 0.
+Definition c11_fail (h : histcase) := let t := trace_of h in fold_trace_fail (rq_step t) (mkRq 0 []) [] t 0.
+Definition c12_fail (h : histcase) := let t := trace_of h in (disconnect_last t, fold_trace_fail (cl_step true t) (mkCl false false [] false 0) [] t 0).
